@@ -257,3 +257,51 @@ func H_C18_ReaderPerCall() {
 	rt.Assert(later.Options.GetFormatOptions(key) == nil && later.Options.Format == "", "C18.reader.percall.laterInstancePristine")
 	reader.UnregisterUnserializer(callFmt)
 }
+
+// H_C18_SharedCallOptions: one per-call options object that names no format, used with two writers configured for
+// different formats: each call uses its own writer's format, and the caller's object is not written to.
+func H_C18_SharedCallOptions() {
+	fmtA := formats.Format("x-a-" + rt.NondetString("fmta"))
+	fmtB := formats.Format("x-b-" + rt.NondetString("fmtb"))
+	serA, serB := &recSerializer{}, &recSerializer{}
+	writer.RegisterSerializer(fmtA, serA)
+	writer.RegisterSerializer(fmtB, serB)
+	wa, wb := writer.New(writer.WithFormat(fmtA)), writer.New(writer.WithFormat(fmtB))
+	o := &writer.Options{RenderOptions: &native.RenderOptions{Indent: rt.NondetInt("indent", 0, 16)}}
+	e1 := wa.WriteStreamWithOptions(&sbom.Document{}, nopWC{}, o)
+	e2 := wb.WriteStreamWithOptions(&sbom.Document{}, nopWC{}, o)
+	rt.Assert(e1 == nil && e2 == nil, "C18.sharedcall.noerror")
+	rt.Assert(serA.calls == 1 && serB.calls == 1, "C18.sharedcall.format")
+	rt.Assert(o.Format == "", "C18.sharedcall.callerObjectUntouched")
+	rt.Assert(rt.And(wa.Options.Format == fmtA, wb.Options.Format == fmtB), "C18.sharedcall.instancesUnchanged")
+	writer.UnregisterSerializer(fmtA)
+	writer.UnregisterSerializer(fmtB)
+}
+
+// H_C18_ConfiguredInPlace: an instance configured after construction through its exported option objects: neither
+// the defaults seen by instances built later, nor instances built earlier, change.
+func H_C18_ConfiguredInPlace() {
+	if rt.NondetChoice("kind", 2) == 0 {
+		early := writer.New()
+		earlyIndent, earlyNoClobber := early.Options.RenderOptions.Indent, early.Options.StoreOptions.NoClobber
+		w := writer.New()
+		w.Options.RenderOptions.Indent = rt.NondetInt("indent", 0, 16)
+		w.Options.StoreOptions.NoClobber = !w.Options.StoreOptions.NoClobber
+		w.Options.SetFormatOptions("k", rt.NondetString("v"))
+		w.Options.Format = formats.Format("x-" + rt.NondetString("fmt"))
+		later := writer.New()
+		rt.Assert(rt.And(later.Options.RenderOptions.Indent == defaultIndent, later.Options.StoreOptions.NoClobber == earlyNoClobber,
+			later.Options.GetFormatOptions("k") == nil, later.Options.Format == ""), "C18.inplace.writer.laterPristine")
+		rt.Assert(rt.And(early.Options.RenderOptions.Indent == earlyIndent, early.Options.StoreOptions.NoClobber == earlyNoClobber,
+			early.Options.GetFormatOptions("k") == nil, early.Options.Format == ""), "C18.inplace.writer.earlierUnchanged")
+		return
+	}
+	early := reader.New()
+	r := reader.New()
+	r.Options.SetFormatOptions("k", rt.NondetString("v"))
+	r.Options.Format = formats.Format("x-" + rt.NondetString("fmt"))
+	r.Options.RetrieveOptions = &storage.RetrieveOptions{BackendOptions: "x"}
+	later := reader.New()
+	rt.Assert(rt.And(later.Options.GetFormatOptions("k") == nil, later.Options.Format == "", later.Options.RetrieveOptions == nil), "C18.inplace.reader.laterPristine")
+	rt.Assert(rt.And(early.Options.GetFormatOptions("k") == nil, early.Options.Format == "", early.Options.RetrieveOptions == nil), "C18.inplace.reader.earlierUnchanged")
+}
